@@ -20,6 +20,7 @@ DECIDED += "; R12 a namespace record never overtakes an earlier record on the sa
 DECIDED += '; R13 a data sync inserts the placeholder inode only when persisted_files has none for the path; a truncating open logs its SetLen(0) whatever it created (shared C10-R5)'
 DECIDED += "; R14 inside the syncs the pending log is only drained and re-assigned; apply_op_to_persisted's SetLen arm resizes to the recorded length and its Rename arm inserts the moved inode unconditionally"
 DECIDED += '; a ring fsync flushes when its completion is reaped (shared C18-R12)'
+DECIDED += '; R5 also: torn writes are applied in issue order; the tokio OpenOptions forwards each option to the std setter of the same name (shared C10-R7)'
 ASSUMPTIONS = ["IndexMap / IndexSet / Vec API semantics"]
 
 FS = "turmoil_fs::Fs::"
